@@ -3,5 +3,6 @@ package props
 
 import (
 	_ "verifharness/props/c03"
+	_ "verifharness/props/c04"
 	_ "verifharness/props/c20"
 )
